@@ -24,7 +24,7 @@ import os
 import re
 import time
 
-from vf.core import Check, REPO, HarnessError
+from vf.core import Check, REPO, HarnessError, lean_str
 
 MODULES = ["Model.Types", "Generated.C16", "Proofs.Types", "Properties.C16"]
 P = "SqlglotModel.Properties.C16."
@@ -33,6 +33,8 @@ THEOREMS = [P + n for n in [
     "coerce_decimalP_absorbs", "decimal_params_never_computed", "decimal_arith_engine_class",
     "extra_table_ok", "literal_typing", "int_literal_overflow_disagrees_witness", "predicates_are_boolean", "try_cast_is_cast",
     "argument_typed_functions_keep_type", "aggregate_classes_exact", "array_element_type",
+    "container_element_types", "container_classes_exact", "list_concat_first_wins_witness",
+    "write_sites_audited", "union_column_type", "union_branches_exact", "null_branches_agree", "nullif_exact", "temporal_branches",
     "leaf_table_agrees", "un_table_exact", "bin_table_exact", "tern_cond_irrelevant", "tern_table_exact", "nary_table_ok", "tables_ok",
     "depth1_exact_un", "depth1_exact_bin", "depth1_exact_tern", "every_family_inhabited",
     "rel_sound", "class_agrees", "final_class_agrees", "int_never_narrower",
@@ -73,10 +75,10 @@ UN_WRAP = ["over", "filter"]  # wrappers around an aggregate; the engine side is
 UN_PLAIN = ["neg", "not", "isNull", "length", "upper", "lower", "abs", "sqrt", "ln", "exp", "sign", "ceil", "floor", "round",
             "year", "month", "day", "extractYear", "count", "sum", "min", "max", "avg",
             "anyValue", "stddev", "variance", "boolAnd", "boolOr", "groupConcat", "approxDistinct",
-            "lag", "lead", "firstValue", "lastValue", "subq", "exists"] + UN_WRAP
+            "lag", "lead", "firstValue", "lastValue", "subq", "exists", "structField", "arrayAggElem", "mapElem"] + UN_WRAP
 UN = UN_PLAIN + ["cast_" + t for t in CAST_TARGETS] + ["tryCast_" + t for t in CAST_TARGETS]
 BIN = ["add", "sub", "mul", "div", "intdiv", "mod", "pow", "eq", "neq", "lt", "le", "gt", "ge", "and", "or", "dpipe", "like",
-       "coalesce", "nullif", "concat", "greatest", "least", "corr", "isDistinct", "ilike", "arrayElem"]
+       "coalesce", "nullif", "concat", "greatest", "least", "corr", "isDistinct", "ilike", "arrayElem", "listConcatElem", "sliceElem", "unnest2", "unionCol"]
 TERN = ["caseWhen", "iff"]
 NARY = ["coalesce", "greatest", "least", "caseN"]
 PRED3 = ["between", "inList"]
@@ -96,6 +98,7 @@ UN_SQL = {
     "boolOr": "BOOL_OR({A})", "groupConcat": "STRING_AGG({A}, ',')", "approxDistinct": "APPROX_COUNT_DISTINCT({A})",
     "lag": "LAG({A}) OVER ()", "lead": "LEAD({A}) OVER ()", "firstValue": "FIRST_VALUE({A}) OVER ()",
     "lastValue": "LAST_VALUE({A}) OVER ()", "subq": "(SELECT {A} FROM t)", "exists": "EXISTS(SELECT {A} FROM t)",
+    "structField": "{{'k': {A}}}.k", "arrayAggElem": "ARRAY_AGG({A})[1]", "mapElem": "MAP(['k'], [{A}])['k']",
 }
 for _t in CAST_TARGETS:
     UN_SQL["cast_" + _t] = "CAST({A} AS " + CAST_SQL[_t] + ")"
@@ -107,6 +110,8 @@ BIN_SQL = {
     "coalesce": "COALESCE({A}, {B})", "nullif": "NULLIF({A}, {B})", "concat": "CONCAT({A}, {B})",
     "greatest": "GREATEST({A}, {B})", "least": "LEAST({A}, {B})", "corr": "CORR({A}, {B})",
     "isDistinct": "{a} IS DISTINCT FROM {b}", "ilike": "{a} ILIKE {b}", "arrayElem": "[{A}, {B}][1]",
+    "listConcatElem": "LIST_CONCAT([{A}], [{B}])[1]", "sliceElem": "[{A}, {B}][1:2][1]", "unnest2": "UNNEST([{A}, {B}])",
+    "unionCol": "(SELECT u.c FROM (SELECT {A} AS c UNION ALL SELECT {B} AS c) AS u LIMIT 1)",
 }
 TERN_SQL = {"caseWhen": "CASE WHEN {C} THEN {A} ELSE {B} END", "iff": "IF({C}, {A}, {B})"}
 
@@ -244,10 +249,24 @@ def duck_typeof_bind(sql_expr: str) -> str:
     c = _DUCK.setdefault("bind_cache", {})
     if sql_expr in c:
         return c[sql_expr]
-    try:
-        r = str(con.sql(f"SELECT {sql_expr} FROM t").types[0])
-    except Exception as ex:  # noqa
-        r = "ERR " + type(ex).__name__
+    r = None
+    for attempt in (0, 1):
+        try:
+            r = str(con.sql(f"SELECT {sql_expr} FROM t").types[0])
+            break
+        except Exception as ex:  # noqa
+            r = "ERR " + type(ex).__name__
+            msg = str(ex)
+            if "aborted" in msg or "INTERNAL" in msg or "FATAL" in msg:
+                # an internal error (e.g. LIST_REVERSE over a scalar) leaves the implicit transaction aborted: every later
+                # statement would fail; roll back, and retry the statement that merely ran into the aborted state
+                try:
+                    con.execute("ROLLBACK")
+                except Exception:  # noqa
+                    pass
+                if "aborted" in msg and attempt == 0:
+                    continue
+            break
     if r == "INTEGER":
         r2 = duck_typeof(sql_expr)
         if not r2.startswith("ERR"):
@@ -484,6 +503,13 @@ NODEC_SAMPLES = {
     "ilike": ("t.v ILIKE t.v", "ILike", None),
     "array": ("[t.i, t.bi]", "Array", lambda n: list(n.expressions)),
     "bracket": ("[t.i, t.bi][1]", "Bracket", lambda n: [n.this]),
+    "struct": ("{'k': t.i}", "Struct", lambda n: []),
+    "dot": ("{'k': t.i}.k", "Dot", lambda n: []),
+    "propertyEq": ("{'k': t.i}", "PropertyEQ", lambda n: [n.this, n.expression], lambda n: n.expressions[0]),
+    "map": ("MAP(['k'], [t.db])", "Map", lambda n: []),
+    "arrayAgg": ("ARRAY_AGG(t.i)", "ArrayAgg", lambda n: [n.this]),
+    "arrayConcat": ("LIST_CONCAT([t.i], [t.bi])", "ArrayConcat", lambda n: [n.this] + list(n.expressions)),
+    "explode": ("UNNEST([t.i, t.db])", "Explode", lambda n: []),
     "add": ("t.i + t.bi", "Add", None), "sub": ("t.i - t.bi", "Sub", None), "mul": ("t.i * t.bi", "Mul", None),
     "div": ("t.i / t.bi", "Div", None), "intdiv": ("t.i // t.bi", "IntDiv", None), "mod": ("t.i % t.bi", "Mod", None),
     "pow": ("t.i ** t.bi", "Pow", lambda n: [n.this, n.expression]),
@@ -540,12 +566,21 @@ def _classify_meta(chk, nodec):
                                                           f"{type(node).__name__}, the model expects {want_cls}"})
         return ".notModelled", info
     children = (kids or (lambda n: [n.this, n.expression]))(node)
-    spec = S["dialect"].EXPRESSION_METADATA.get(type(node))
 
     def bad(why):
         chk.broken.append({"kind": "translator", "what": f"C16 translator: structure changed: EXPRESSION_METADATA[{want_cls}] {why}"})
         return ".notModelled", info
 
+    return _shape_of(node, children, bad, info)
+
+
+def _shape_of(node, children, bad, info):
+    """the Lean `Meta` shape of the EXPRESSION_METADATA entry of `node`'s class, read by calling the entry on a spy annotator"""
+    from unittest.mock import MagicMock
+
+    S = sg()
+    exp = S["exp"]
+    spec = S["dialect"].EXPRESSION_METADATA.get(type(node))
     if not spec:
         return bad("is missing")
     if "annotator" not in spec or not spec.get("annotator"):
@@ -582,6 +617,8 @@ def _classify_meta(chk, nodec):
         return ".subquery", info
     if name == "_annotate_bracket" and len(args) == 1:
         return ".bracket", info
+    if name in ("_annotate_struct", "_annotate_dot", "_annotate_map", "_annotate_explode") and len(args) == 1 and not kwargs:
+        return f'.annotator "{name}"', info
     if name == "_set_type" and len(args) == 2 and not kwargs:
         if args[1] is node.args.get("to") and args[1] is not None:
             return ".castTo", info
@@ -727,6 +764,51 @@ def cache_inventory(chk: Check):
     inv = [(c, bool(uses[c]) and all(u[2] for u in uses[c])) for c in caches]
     chk.cov["annotator_caches"] = {c: {"keys": sorted({u[1] for u in uses[c]}), "every_key_mentions_scope": dict(inv)[c]} for c in caches}
     return inv
+
+
+def rewrite_sites(chk: Check):
+    """every place in sqlglot/optimizer/annotate_types.py that WRITES into an object other than the annotator itself: calls of
+    .set / .replace / .transform / .pop / .append / .insert / .remove / .update on a receiver that is not `self...` or a local
+    list/dict built in the same function, and assignments to an attribute or subscript of a non-self object — (function,
+    receiver.method or target, kind). Setting `_type` and `meta` is how annotation works; anything else rewrites the tree."""
+    import ast
+
+    src = open(os.path.join(REPO, "sqlglot", "optimizer", "annotate_types.py"), encoding="utf-8").read()
+    tree = ast.parse(src)
+    out = set()
+    for fn in [n for n in ast.walk(tree) if isinstance(n, ast.FunctionDef)]:
+        local_containers = set()
+        for st in ast.walk(fn):
+            tgt = val = None
+            if isinstance(st, ast.Assign) and len(st.targets) == 1:
+                tgt, val = st.targets[0], st.value
+            elif isinstance(st, ast.AnnAssign):
+                tgt, val = st.target, st.value
+            if isinstance(tgt, ast.Name) and isinstance(val, (ast.List, ast.Dict, ast.Set, ast.ListComp, ast.DictComp, ast.SetComp)):
+                local_containers.add(tgt.id)
+
+        def root_name(node):
+            while isinstance(node, (ast.Attribute, ast.Subscript, ast.Call)):
+                node = node.func if isinstance(node, ast.Call) else node.value
+            return node.id if isinstance(node, ast.Name) else None
+
+        for n in ast.walk(fn):
+            if isinstance(n, ast.Call) and isinstance(n.func, ast.Attribute) and n.func.attr in (
+                    "set", "replace", "transform", "pop", "append", "insert", "remove", "update", "extend", "clear"):
+                r = root_name(n.func.value)
+                if r in ("self", None) or r in local_containers:
+                    continue
+                out.add((fn.name, ast.unparse(n.func.value) + "." + n.func.attr, "call"))
+            elif isinstance(n, (ast.Assign, ast.AugAssign)):
+                for tg in (n.targets if isinstance(n, ast.Assign) else [n.target]):
+                    if isinstance(tg, (ast.Attribute, ast.Subscript)):
+                        r = root_name(tg)
+                        if r in ("self", None) or r in local_containers:
+                            continue
+                        out.add((fn.name, ast.unparse(tg.value if isinstance(tg, ast.Subscript) else tg), "assign"))
+    sites = sorted(out)
+    chk.cov["annotate_types_write_sites"] = [" :: ".join(x) for x in sites]
+    return sites
 
 
 def translate(chk: Check, table) -> str:
@@ -876,6 +958,11 @@ def translate(chk: Check, table) -> str:
         seen.add(mty)
         w(f"  | .{mty} => .{ety_of_duck(duck_typeof('t.' + c))}")
     w("  | _ => .error")
+    w("")
+    sites = rewrite_sites(chk)
+    w("/-- every place annotate_types.py writes into a node / type / meta (ast): (function, target, call|assign) -/")
+    w("def writeSites : List (String × String × String) :=")
+    w("  [" + ",\n   ".join(f'({lean_str(a)}, {lean_str(b)}, {lean_str(c)})' for a, b, c in sites) + "]")
     w("")
     inv = cache_inventory(chk)
     w("/-- the per-call caches of TypeAnnotator (ast of annotate_types.py): (attribute, every key expression mentions a Scope) -/")
@@ -1796,6 +1883,215 @@ def query_stream(chk: Check) -> None:
     chk.cov["query_stream"] = {"statements": n, "engine_rejected": rejected, "disagreeing_projections": found}
 
 
+
+# ------------------------------------------------------------------------------------------ generic metadata functions (thorough tier)
+FN_MODULES = ["Generated.C16Fn", "Properties.C16Fn"]
+FN_THEOREMS = ["SqlglotModel.Properties.C16Fn.metadata_functions_exact", "SqlglotModel.Properties.C16Fn.metadata_functions_census"]
+
+
+def fn_inventory(chk: Check):
+    """every Binary / Unary / Func class of the duckdb EXPRESSION_METADATA outside the modelled node classes, instantiated with 1 and
+    2 scalar arguments: [(name, arity, cls, slot names, Lean Meta shape)] for the FAITHFUL ones (the duckdb rendering parses back to
+    the same tree, and the entry has a modelled shape) + the reasons for the others. Cheap (no engine)."""
+    import logging
+
+    S = sg()
+    exp = S["exp"]
+    modelled = {v[1] for v in NODEC_SAMPLES.values()}
+    entries, skipped = [], {}
+    lg = logging.getLogger("sqlglot")
+    old = lg.level
+    lg.setLevel(logging.CRITICAL)
+    try:
+        for cls in sorted(S["dialect"].EXPRESSION_METADATA, key=lambda c: c.__name__):
+            if not issubclass(cls, (exp.Func, exp.Binary, exp.Unary)) or cls.__name__ in modelled:
+                continue
+            at = cls.arg_types
+            req = [k for k, v in at.items() if v]
+            order = req + [k for k in at if k not in req]
+            for ar in (1, 2):
+                cols = [exp.column(c, table="t") for c in ("i", "bi")[:ar]]
+                args, i = {}, 0
+                for k in order:
+                    if i >= ar:
+                        break
+                    if k == "expressions":
+                        args[k] = cols[i:]
+                        i = ar
+                    else:
+                        args[k] = cols[i]
+                        i += 1
+                name = f"{cls.__name__}/{ar}"
+                if i < ar or any(k not in args for k in req):
+                    continue
+                try:
+                    node = cls(**args)
+                    sql = node.sql("duckdb")
+                    back = S["sqlglot"].parse_one(f"SELECT {sql} FROM t", dialect="duckdb").selects[0]
+                except Exception as ex:  # noqa
+                    skipped[name] = "does not render / parse: " + type(ex).__name__
+                    continue
+                if back != node:
+                    skipped[name] = f"renders as `{sql}`, which parses back to {type(back).__name__}"
+                    continue
+                why = []
+                shape, _ = _shape_of(node, cols, lambda w: (why.append(w) or (None, None)), {})
+                if shape is None:
+                    skipped[name] = "shape not modelled: " + why[0]
+                    continue
+                entries.append((name, ar, cls, list(args), shape))
+    finally:
+        lg.setLevel(old)
+    return entries, skipped
+
+
+def fn_digest(entries) -> str:
+    import hashlib
+
+    txt = json.dumps([[n, a, sh] for n, a, _, _, sh in entries]) + "|" + _DUCK.get("version", "?") + "|" + json.dumps(representatives(), sort_keys=True)
+    return hashlib.sha256(txt.encode()).hexdigest()[:20]
+
+
+def fn_generated_digest():
+    path = os.path.join(os.path.dirname(os.path.dirname(os.path.dirname(os.path.abspath(__file__)))), "lean", "SqlglotModel", "Generated", "C16Fn.lean")
+    if not os.path.exists(path):
+        return None
+    m = re.search(r'def digest : String := "([0-9a-f]+)"', open(path, encoding="utf-8").read())
+    return m.group(1) if m else None
+
+
+def fn_translate(chk: Check, entries, digest) -> str:
+    """Generated/C16Fn.lean: shapes from the live metadata + the engine class table of every entry over every class (pair),
+    one representative per class, bound types from the installed DuckDB"""
+    import logging
+
+    S = sg()
+    reps = representatives()
+    classes = [c for c in ETY if c in reps]
+    rep_node = {}
+    for c in classes:
+        sql = render(reps[c][0])
+        rep_node[c] = S["sqlglot"].parse_one(f"SELECT {sql} FROM t", dialect="duckdb").selects[0]
+    rep_node2 = {}
+    for c in classes:
+        sql = render(reps[c][1] if len(reps[c]) > 1 and not has_raw(reps[c][1]) else reps[c][0])
+        rep_node2[c] = S["sqlglot"].parse_one(f"SELECT {sql} FROM t", dialect="duckdb").selects[0]
+    lg = logging.getLogger("sqlglot")
+    old = lg.level
+    lg.setLevel(logging.CRITICAL)
+    L = []
+    w = L.append
+    w("-- GENERATED by vf/props/c16.py (thorough tier, or whenever the digest below no longer matches the live metadata): the duckdb")
+    w("-- EXPRESSION_METADATA entries outside the modelled node classes, and their engine class tables from the installed DuckDB.")
+    w("import SqlglotModel.Model.Types")
+    w("namespace SqlglotModel.Generated.C16Fn")
+    w("open SqlglotModel.Types")
+    w("")
+    w(f'def digest : String := "{digest}"')
+    w("")
+    nq = 0
+    try:
+        for idx, (name, ar, cls, slots, shape) in enumerate(entries):
+            rows = []
+            for combo in ([(a,) for a in classes] if ar == 1 else [(a, b) for a in classes for b in classes]):
+                vals = [rep_node[c].copy() for c in combo]
+                args, i = {}, 0
+                for k in slots:
+                    if k == "expressions":
+                        args[k] = vals[i:]
+                        i = ar
+                    else:
+                        args[k] = vals[i]
+                        i += 1
+                try:
+                    sql = cls(**args).sql("duckdb")
+                except Exception:  # noqa
+                    continue
+                nq += 1
+                e = ety_of_duck(duck_typeof_bind(sql))
+                # a second representative of every class: the table must be class-level
+                try:
+                    vals2 = [rep_node2[c].copy() for c in combo]
+                    args2, i2 = {}, 0
+                    for k in slots:
+                        if k == "expressions":
+                            args2[k] = vals2[i2:]
+                            i2 = ar
+                        else:
+                            args2[k] = vals2[i2]
+                            i2 += 1
+                    e2 = ety_of_duck(duck_typeof_bind(cls(**args2).sql("duckdb")))
+                    nq += 1
+                except Exception:  # noqa
+                    e2 = "error"
+                if e == "error":
+                    e = e2
+                elif e2 != "error" and e2 != e:
+                    chk.broken.append({"kind": "assumption", "what": f"A-duck: {name} is not class-level on {combo}: {e} vs {e2}"})
+                if e != "error":
+                    rows.append((combo, e))
+            w(f"def duck_{idx} : " + " → ".join(["ETy"] * (ar + 1)) + f"    -- {name}")
+            for combo, e in rows:
+                w("  | " + ", ".join("." + c for c in combo) + f" => .{e}")
+            w("  | " + ", ".join(["_"] * ar) + " => .error")
+            w("")
+    finally:
+        lg.setLevel(old)
+    w("def name : Nat → String")
+    for idx, (n, *_r) in enumerate(entries):
+        w(f'  | {idx} => "{n.split("/")[0]}"')
+    w('  | _ => ""')
+    w("")
+    w("def arity : Nat → Nat")
+    for idx, e in enumerate(entries):
+        w(f"  | {idx} => {e[1]}")
+    w("  | _ => 0")
+    w("")
+    w("def shape : Nat → Meta")
+    for idx, e in enumerate(entries):
+        w(f"  | {idx} => {e[4]}")
+    w("  | _ => .notModelled")
+    w("")
+    w("def duck1 : Nat → ETy → ETy")
+    for idx, e in enumerate(entries):
+        if e[1] == 1:
+            w(f"  | {idx} => duck_{idx}")
+    w("  | _ => fun _ => .error")
+    w("")
+    w("def duck2 : Nat → ETy → ETy → ETy")
+    for idx, e in enumerate(entries):
+        if e[1] == 2:
+            w(f"  | {idx} => duck_{idx}")
+    w("  | _ => fun _ _ => .error")
+    w("")
+    w("def tables : FnTables where")
+    w(f"  count := {len(entries)}")
+    w("  name := name")
+    w("  arity := arity")
+    w("  shape := shape")
+    w("  duck1 := duck1")
+    w("  duck2 := duck2")
+    w("")
+    w("end SqlglotModel.Generated.C16Fn")
+    chk.cov.setdefault("metadata_functions", {})["typeof_queries"] = nq
+    return "\n".join(L) + "\n"
+
+
+def metadata_functions(chk: Check) -> None:
+    """both tiers: regenerate the generic-function table (cheap: bound types, one or two representatives per class) and decide
+    it (theorem metadata_functions_exact; the Lean build is a no-op while the table is unchanged)"""
+    entries, skipped = fn_inventory(chk)
+    digest = fn_digest(entries)
+    have = fn_generated_digest()
+    info = chk.cov.setdefault("metadata_functions", {})
+    info.update({"entries": len(entries), "not_faithful_or_unmodelled_shape": len(skipped), "digest": digest,
+                 "table_changed_since_last_run": have != digest, "skipped_examples": dict(list(skipped.items())[:6]),
+                 "proved_in": "this run, both tiers (complete decision over every entry x typed operand summaries x compatible engine "
+                              "classes; the thorough tier forces a rebuild)"})
+    chk.write_generated(fn_translate(chk, entries, digest), name="C16Fn")
+    chk.prove(FN_MODULES, "Properties.C16Fn", FN_THEOREMS)
+
+
 # ------------------------------------------------------------------------------------------ entry points
 def run(chk: Check) -> None:
     chk.trusted.append("C16: hand-written model Model/Types.lean of TypeAnnotator._maybe_coerce/_annotate_by_args/_annotate_binary/"
@@ -1819,6 +2115,7 @@ def run(chk: Check) -> None:
         chk.broken.append({"kind": "assumption", "what": "A-duck: the engine is not class-level for " + json.dumps(i)})
     chk.write_generated(translate(chk, table))
     proved = chk.prove(MODULES, "Properties.C16", THEOREMS)
+    metadata_functions(chk)
     hints = []
     try:
         hints = correspond(chk, depth1)
